@@ -50,11 +50,11 @@ struct pool_policy
     // 6: (small pools) a pointer into a chunk header, 7: a pointer above all blocks, 8..10: inside a live node at offset 1..3
     static int nbad()
     {
-        return 11;
+        return 12;
     }
     static std::string bad_kind(int i)
     {
-        return i <= 5 ? "double_free" : i <= 7 ? "foreign_pointer" : "misaligned_pointer";
+        return i <= 5 ? "double_free" : (i <= 7 || i == 11) ? "foreign_pointer" : "misaligned_pointer";
     }
     template <class W>
     static u8* bad_ptr(W& w, int s, int i)
@@ -85,7 +85,12 @@ struct pool_policy
         }
         if (i == 7)
             return w.arena + CP().arena - 8; // never part of a block in these configurations
-        if (w.h.sh.n == 0 || std::size_t(i - 7) >= o.node_size())
+        if (i == 11)
+        {
+            // exactly one past the node area of the first chunk (the next chunk's header / the block's end)
+            return one_past_first_chunk(o.free_list_);
+        }
+        if (i > 10 || w.h.sh.n == 0 || std::size_t(i - 7) >= o.node_size())
             return nullptr;
         return w.arena + w.h.sh.v[0].off + (i - 7);
     }
@@ -93,7 +98,7 @@ struct pool_policy
     static std::string bad_name(W& w, int s, int i)
     {
         u8* p = bad_ptr(w, s, i);
-        return fmt("deallocate_node(%s at offset %ld)", i <= 5 ? "already free node" : i <= 7 ? "pointer outside the pool's nodes" : "pointer inside a node",
+        return fmt("deallocate_node(%s at offset %ld)", i <= 5 ? "already free node" : (i <= 7 || i == 11) ? "pointer outside the pool's nodes" : "pointer inside a node",
                    p ? long(p - w.arena) : -1L);
     }
     template <class W>
